@@ -289,8 +289,21 @@ func (s *sim) quiet() bool {
 	return len(ids) == 0 && cur == "nil" && !closed
 }
 
-func (s *sim) waitQuiet() bool {
-	deadline := time.Now().Add(15 * time.Second)
+// hurried: once a wait for quiescence has run out the stream is wedged for good (or the machine hopelessly slow); the remaining
+// ops of the script only document the state and need not wait the full time again
+var hurried bool
+
+func (s *sim) waitQuiet() (ok bool) {
+	limit := 15 * time.Second
+	if hurried {
+		limit = 300 * time.Millisecond
+	}
+	defer func() {
+		if !ok {
+			hurried = true
+		}
+	}()
+	deadline := time.Now().Add(limit)
 	stable := 0
 	for time.Now().Before(deadline) {
 		if s.quiet() {
@@ -379,6 +392,7 @@ func (s *sim) Step(line string) string {
 		return "bad-op"
 	}
 	if f[0] == "new" && len(f) == 1 {
+		hurried = false
 		s.stopLoop()
 		s.mu.Lock()
 		s.armBefore, s.armAfter = nil, nil
